@@ -510,16 +510,143 @@ pub fn check_c(c: &CaseC, obs: &mut Obs) -> Result<(), Fail> {
     Ok(())
 }
 
+
+// ---------------------------------------------------------------- lane D: an id given up by a timeout
+//
+// A timed-out operation's id is released by the DRIVER (when it handles the scrub request), not by the caller. Here
+// the next operation is started in the very instant the timeout fires - before the driver task has run - with the
+// counter positioned just below the timed-out id (as after a wrap-around); a third one is started the same way below
+// the second's id. No operation may be given the id of one that is outstanding, every outstanding id stays reserved,
+// and each answered operation gets its own answer.
+
+#[derive(Clone, Debug, Serialize, Deserialize)]
+pub struct CaseD {
+    start: i32,
+    pre: u8,
+    timeout_ms: u64,
+    queued: bool,
+    kinds: [Single; 3],
+    sched: u64,
+}
+
+fn strat_d(_: &Ctx) -> BoxedStrategy<CaseD> {
+    let start = prop_oneof![3 => 0i32..20, 1 => 125i32..130, 2 => (MAX - 6)..=MAX];
+    (start, 0u8..3, 5u64..300, any::<bool>(), [simops::single_strat(), simops::single_strat(), simops::single_strat()], any::<u64>())
+        .prop_map(|(start, pre, timeout_ms, queued, kinds, sched)| CaseD { start, pre, timeout_ms, queued, kinds, sched })
+        .boxed()
+}
+
+pub fn check_d(c: &CaseD, obs: &mut Obs) -> Result<(), Fail> {
+    let cc = c.clone();
+    let out = sim::run_sim(c.sched, async move {
+        let conn = sim::connect();
+        conn.msgmap.lock().unwrap().0 = cc.start;
+        let wire = conn.wire.clone();
+        let mm = conn.msgmap.clone();
+        let answer = |wire: &Wire, want: &[usize], kinds: &[Single; 3]| -> Vec<(usize, i64)> {
+            // answer the requests of the wanted operations, ignore the others
+            let mut got = Vec::new();
+            while let Some(r) = wire.try_recv() {
+                if let Recv::Msg(Ok(m), _, _) = r {
+                    if let Some(i) = simops::marker_index(&m) {
+                        if want.contains(&i) {
+                            let tag = if i >= 10 { Single::Compare.resp_tag() } else { kinds[i].resp_tag() };
+                            wire.push(&RespMsg::new(m.id, Resp::result(tag, Res::ok(&format!("tok-{}", i)))).encode());
+                        }
+                        got.push((i, m.id));
+                    }
+                }
+            }
+            got
+        };
+        let mut la = conn.ldap.clone();
+        let (mk1, mk2) = (simops::marker(1), simops::marker(2));
+        // some answered operations first
+        for j in 0..cc.pre as usize {
+            let mk = simops::marker(10 + j);
+            let mut f = Box::pin(simops::exec_single(&mut la, Single::Compare, &mk));
+            if futures_util::poll!(f.as_mut()).is_ready() {
+                return Err(("c05:server-problem".to_string(), "an unanswered operation completed".to_string()));
+            }
+            quiesce().await;
+            answer(&wire, &[10 + j], &cc.kinds);
+            if f.await.is_err() {
+                return Err(("c05:server-problem".to_string(), "a plain answered operation failed".to_string()));
+            }
+        }
+        if cc.queued {
+            wire.block_writes(true);
+        }
+        la.with_timeout(std::time::Duration::from_millis(cc.timeout_ms));
+        let ra = simops::exec_single(&mut la, cc.kinds[0], &simops::marker(0)).await;
+        if !matches!(ra, Err(ldap3::LdapError::Timeout { .. })) {
+            return Err(("c05:server-problem".to_string(), format!("the unanswered operation did not time out: {:?}", ra.map(|r| r.rc).map_err(|e| sim::err_kind(&e)))));
+        }
+        let id_a = la.last_id();
+        // --- no await from here to the first poll of B: the driver has not seen the scrub request yet
+        mm.lock().unwrap().0 = id_a - 1;
+        let mut lb = conn.ldap.clone();
+        let mut fb = Box::pin(simops::exec_single(&mut lb, cc.kinds[1], &mk1));
+        if futures_util::poll!(fb.as_mut()).is_ready() {
+            return Err(("c05:server-problem".to_string(), "an unanswered operation completed".to_string()));
+        }
+        let id_b = mm.lock().unwrap().0;
+        wire.block_writes(false);
+        quiesce().await;
+        let b_reserved = mm.lock().unwrap().1.contains(&id_b);
+        // C: started below B's id while B is outstanding
+        mm.lock().unwrap().0 = if id_b > 1 { id_b - 1 } else { MAX };
+        let mut lc = conn.ldap.clone();
+        let mut fc = Box::pin(simops::exec_single(&mut lc, cc.kinds[2], &mk2));
+        if futures_util::poll!(fc.as_mut()).is_ready() {
+            return Err(("c05:server-problem".to_string(), "an unanswered operation completed".to_string()));
+        }
+        let id_c = mm.lock().unwrap().0;
+        quiesce().await;
+        let seen = answer(&wire, &[1, 2], &cc.kinds);
+        let rb = tokio::time::timeout(std::time::Duration::from_secs(3600), fb).await;
+        let rc = tokio::time::timeout(std::time::Duration::from_secs(3600), fc).await;
+        let txt = |r: Result<Result<ldap3::LdapResult, ldap3::LdapError>, tokio::time::error::Elapsed>| match r {
+            Ok(Ok(r)) => r.text,
+            Ok(Err(e)) => format!("error:{}", sim::err_kind(&e)),
+            Err(_) => "never-answered".to_string(),
+        };
+        Ok((id_a, id_b, id_c, b_reserved, txt(rb), txt(rc), seen))
+    });
+    let (id_a, id_b, id_c, b_reserved, rb, rc, seen) = match out {
+        SimResult::Done(Ok(v)) => v,
+        SimResult::Done(Err((sig, msg))) => return Err(Fail::new(sig, msg)),
+        SimResult::Hang => fail!("c05:hang", "history never completed"),
+    };
+    for id in [id_a, id_b, id_c] {
+        ensure!((1..=MAX).contains(&id), "c05:out-of-range", "id {} handed out", id);
+    }
+    // (B being given A's id is not itself the violation - A is over for its caller; what follows from it is)
+    ensure!(b_reserved, "c05:outstanding-id-not-reserved", "the id {} of an outstanding operation is no longer reserved after the driver handled the timeout of operation {}", id_b, id_a);
+    ensure!(id_c != id_b, "c05:duplicate-in-flight", "id {} was handed out again while its operation is outstanding", id_b);
+    let wb: Vec<i64> = seen.iter().filter(|x| x.0 == 1).map(|x| x.1).collect();
+    let wc: Vec<i64> = seen.iter().filter(|x| x.0 == 2).map(|x| x.1).collect();
+    ensure!(wb == vec![id_b as i64] && wc == vec![id_c as i64], "c05:wire-id", "requests arrived under ids {:?} / {:?}, allocated {} / {}", wb, wc, id_b, id_c);
+    ensure!(rb == "tok-1" && rc == "tok-2", "c05:wrong-answer", "operations under ids {} and {} observed {:?} and {:?}", id_b, id_c, rb, rc);
+    obs.label(if c.queued { "timed-out-request-still-queued" } else { "timed-out-request-written" });
+    if id_b < id_a || id_c < id_b || id_a == MAX {
+        obs.label("wraps");
+    }
+    obs.nontrivial((c.start, c.pre, c.timeout_ms, c.queued, format!("{:?}", c.kinds)));
+    Ok(())
+}
+
 pub fn property() -> Property {
     Property {
         id: "C05",
         level: "exploration",
-        rule: "lanes: allocator (start state: counter anywhere in 0..2^31-1 biased to 0, 1 and MAX-5..MAX; in-use set arbitrary, biased to clusters at both ends of the id space; then 1-60 steps of allocate-on-handle-h / release-id as the driver does; each allocation must be in 1..MAX, not in use, equal to the reference model 'next free id after the last one in cyclic order', and be reserved); e2e (simulated connection with the counter positioned 0-7 below MAX and phantom in-use ids; 1-40 handles each issuing 1-3 sequential operations, read segmentation with forced yields; a generated server script of answer-one / answer-all / push responses AHEAD for the ids the allocator will hand out next / rewind the counter below the lowest outstanding id and start a probe operation; at every quiescent point every arriving request id must be in range, differ from the id of every operation still outstanding from the caller's point of view and from the phantom set, and every outstanding operation's id must still be reserved in the id table); threads (2-16 OS threads x 500-20000 allocations on clones sharing one table, starting at or below the wrap point, no releases: no id may be handed out twice). Non-trivial: an allocation that wraps MAX->1 while ids are in use, or >=2 ids outstanding at once; e2e histories with >=2 operations outstanding or crossing the wrap point; every thread run. Distinct = hash of the case.",
+        rule: "lanes: allocator (start state: counter anywhere in 0..2^31-1 biased to 0, 1 and MAX-5..MAX; in-use set arbitrary, biased to clusters at both ends of the id space; then 1-60 steps of allocate-on-handle-h / release-id as the driver does; each allocation must be in 1..MAX, not in use, equal to the reference model 'next free id after the last one in cyclic order', and be reserved); e2e (simulated connection with the counter positioned 0-7 below MAX and phantom in-use ids; 1-40 handles each issuing 1-3 sequential operations, read segmentation with forced yields; a generated server script of answer-one / answer-all / push responses AHEAD for the ids the allocator will hand out next / rewind the counter below the lowest outstanding id and start a probe operation; at every quiescent point every arriving request id must be in range, differ from the id of every operation still outstanding from the caller's point of view and from the phantom set, and every outstanding operation's id must still be reserved in the id table); threads (2-16 OS threads x 500-20000 allocations on clones sharing one table, starting at or below the wrap point, no releases: no id may be handed out twice); timeout-release (an operation times out - its request written or still queued behind a blocked socket - and in that very instant, before the driver task has run, a second operation is started with the counter just below the timed-out id, then a third just below the second's: no outstanding operation's id is handed out again, outstanding ids stay reserved after the driver has handled the timeout, wire ids equal the allocated ones, each operation gets its own answer). Non-trivial: an allocation that wraps MAX->1 while ids are in use, or >=2 ids outstanding at once; e2e histories with >=2 operations outstanding or crossing the wrap point; every thread run. Distinct = hash of the case.",
         assumptions: &["hooks verif_msgmap / verif_next_msgid drive the real allocator and table", "interleavings inside the allocator's critical section are sampled by the real-thread lane, not enumerated"],
         lanes: vec![
             Box::new(PLane { name: "allocator", cases: |t| t.pick(4_000, 80_000), strat: strat_a, check: check_a }),
             Box::new(PLane { name: "e2e", cases: |t| t.pick(500, 8_000), strat: strat_b, check: check_b }),
             Box::new(PLane { name: "threads", cases: |t| t.pick(3, 30), strat: strat_c, check: check_c }),
+            Box::new(PLane { name: "timeout-release", cases: |t| t.pick(600, 10_000), strat: strat_d, check: check_d }),
         ],
         workers: (4, 8),
     }
